@@ -100,6 +100,10 @@ func checkPosaSync(c *core.Ctx, pkg, typ string, full bool) {
 				}
 				return false, false
 			}}, adds, "addHeader", nil)
+			checkPosaScanDepth(c, pkg, fn, func(v ssa.Value) (int, bool) {
+				cl, idx := ir.CallOf(v)
+				return idx, cl != nil && ir.CalleeIs(cl, gp)
+			})
 		}
 		// valid flag
 		var flagIf *ssa.If
